@@ -25,6 +25,19 @@ type Fact struct {
 	// Truth) in result position OutcomeIdx"; Cond is then the call itself.
 	OutcomeOf  *ssa.Call
 	OutcomeIdx int
+	// ArgVals, for facts imported from a helper called directly by the outermost function
+	// (Depth 1): the helper's parameter (by reference name) → the caller's argument value.
+	ArgVals map[string]ssa.Value
+}
+
+// CallerValue returns, for a value of the fact's helper that is one of its parameters, the value
+// the outermost function passed for it (nil when unknown).
+func (f Fact) CallerValue(v ssa.Value) ssa.Value {
+	p, ok := Unwrap(v).(*ssa.Parameter)
+	if !ok || f.ArgVals == nil {
+		return nil
+	}
+	return f.ArgVals[ParamName(p)]
 }
 
 // ReturnedNil reports whether the fact says that a call of a function whose short name ends
@@ -185,11 +198,23 @@ func (c *Ctx) outcomeFacts(call *ssa.Call, idx int, oc outcome, depth int, subst
 		if i < len(call.Call.Args) {
 			ap := substPath(Path(call.Call.Args[i]), subst)
 			if ap != "" {
-				ns[p.Name()] = strings.TrimPrefix(ap, "&")
+				ns[ParamName(p)] = strings.TrimPrefix(ap, "&")
 			}
 		}
 	}
 	nvia := append(append([]string{}, via...), ShortFn(callee))
+	var argVals map[string]ssa.Value
+	if d == 0 {
+		argVals = map[string]ssa.Value{}
+		for i, p := range callee.Params {
+			if i < len(call.Call.Args) {
+				argVals[ParamName(p)] = call.Call.Args[i]
+			}
+		}
+	}
+	defer func() {
+		_ = argVals
+	}()
 	// the outcome itself is a fact: "callee returned nil/true/false in result idx"
 	self := Fact{Cond: call, Truth: oc != outcomeFalse, Fn: call.Parent(), Subst: subst, Depth: d, Via: nvia, OutcomeOf: call, OutcomeIdx: idx}
 	if depth <= 0 {
@@ -232,6 +257,13 @@ func (c *Ctx) outcomeFacts(call *ssa.Call, idx int, oc outcome, depth int, subst
 	}
 	if matched == 0 {
 		return []Fact{self}
+	}
+	if argVals != nil {
+		for i := range acc {
+			if acc[i].Depth == 1 && acc[i].Fn == callee {
+				acc[i].ArgVals = argVals
+			}
+		}
 	}
 	return append(acc, self)
 }
@@ -414,4 +446,108 @@ func (cf CallFact) MethodName() string {
 		n = n[i+1:]
 	}
 	return n
+}
+
+// EdgeFactAlts refines EdgeFacts for a decision that fixes a callee outcome (`h(…) != nil`
+// false, `ok(…)` true): besides the facts that hold on every path of the callee producing that
+// outcome (what EdgeFacts gives), it returns the alternatives — one fact set per acyclic callee
+// path to such a return — so that a caller can reason per alternative, exactly as if the helper's
+// body were still written inline (a helper with `if a == b { check X } else { check Y; check Z }`
+// has no common fact, but each of its two accepting paths has what the inline code had).
+// alts is nil when the decision fixes no callee outcome or the callee has too many paths.
+func (c *Ctx) EdgeFactAlts(e Edge, depth int) (must []Fact, alts [][]Fact) {
+	must = c.EdgeFacts(e, depth)
+	if depth <= 0 {
+		return must, nil
+	}
+	cond, truth := normCond(e.If.Cond, e.Taken)
+	var call *ssa.Call
+	idx := 0
+	oc := outcomeNil
+	if bin, ok := cond.(*ssa.BinOp); ok && (bin.Op == token.EQL || bin.Op == token.NEQ) {
+		var x ssa.Value
+		if isNilConst(bin.Y) {
+			x = bin.X
+		} else if isNilConst(bin.X) {
+			x = bin.Y
+		}
+		if x == nil || (bin.Op == token.EQL) != truth {
+			return must, nil
+		}
+		call, idx = callOf(x)
+	} else if cl, ok := Unwrap(cond).(*ssa.Call); ok {
+		if b, isB := cl.Type().Underlying().(*types.Basic); isB && b.Kind() == types.Bool {
+			call = cl
+			if truth {
+				oc = outcomeTrue
+			} else {
+				oc = outcomeFalse
+			}
+		}
+	}
+	if call == nil {
+		return must, nil
+	}
+	callee := call.Call.StaticCallee()
+	if callee == nil || callee.Blocks == nil || !c.InRepo(callee) {
+		return must, nil
+	}
+	ns := map[string]string{}
+	av := map[string]ssa.Value{}
+	for i, p := range callee.Params {
+		if i < len(call.Call.Args) {
+			av[ParamName(p)] = call.Call.Args[i]
+			if ap := Path(call.Call.Args[i]); ap != "" {
+				ns[ParamName(p)] = strings.TrimPrefix(ap, "&")
+			}
+		}
+	}
+	via := []string{ShortFn(callee)}
+	const maxAlts = 48
+	for _, r := range Returns(callee) {
+		if callee.Recover != nil && r.Block() == callee.Recover {
+			continue
+		}
+		if idx >= len(r.Results) {
+			continue
+		}
+		for _, rv := range returnAlternatives(r.Results[idx]) {
+			if classifyOutcome(rv.val, oc) != 1 {
+				if classifyOutcome(rv.val, oc) == 0 {
+					continue
+				}
+				return must, nil // a nested call decides: keep to the must facts
+			}
+			var target ssa.Instruction = r
+			var extra []Fact
+			if rv.pred != nil && len(rv.pred.Instrs) > 0 {
+				target = rv.pred.Instrs[len(rv.pred.Instrs)-1]
+				extra = c.factsAtWithEdge(r, rv, 0, ns, via, 1)
+				// keep only the branch fact of the predecessor's own terminator
+				if len(extra) > 0 {
+					extra = extra[len(extra)-1:]
+				}
+			}
+			paths, ok := PathsTo(target, maxAlts)
+			if !ok {
+				return must, nil
+			}
+			for _, p := range paths {
+				var fs []Fact
+				for _, ed := range p.Edges {
+					cnd, tr := normCond(ed.If.Cond, ed.Taken)
+					fs = append(fs, Fact{Cond: cnd, Truth: tr, Fn: callee, Subst: ns, Depth: 1, Via: via, ArgVals: av})
+					fs = append(fs, c.calleeFacts(cnd, tr, callee, depth-1, ns, via, 1)...)
+				}
+				if _, isIf := target.(*ssa.If); isIf {
+					fs = append(fs, extra...)
+				}
+				alts = append(alts, fs)
+				if len(alts) > maxAlts {
+					return must, nil
+				}
+			}
+		}
+	}
+	return must, alts
 }
